@@ -10,7 +10,8 @@ STR_CHANNELS = ("TRS", "Tract", "trs_to_dict", "setter")
 JUNK_TR = ["abc", "15x", "1o4", "north 5", "--"]
 JUNK_SEC = ["ab", "1x", "abc", "1.5"]
 NO_ATTRS = {"twp": {"k": "err", "n": 0, "d": "-", "s": []}, "rge": {"k": "err", "n": 0, "d": "-", "s": []},
-            "sec": {"k": "err", "n": 0, "d": "-", "s": []}, "twprge": []}
+            "sec": {"k": "err", "n": 0, "d": "-", "s": []}, "twprge": [],
+            "rep_err": [True, True, True, True], "rep_undef": [False, False, False, False]}
 
 
 def concrete_tr(enc, dirs, rng):
